@@ -793,6 +793,28 @@ fn pick_any<T>(mut v: Vec<(usize, Vec<T>)>) -> Option<T> {
     Some(outs.swap_remove(0))
 }
 
+fn me() -> usize {
+    if simctx::active() {
+        shuttle::current::get_current_task().map(usize::from).unwrap_or(0)
+    } else {
+        0
+    }
+}
+
+/// Run `f` as item `i` of parallel-iterator call `call` made under path `parent`.
+fn under_item<R>(parent: u64, call: u64, i: usize, f: impl FnOnce() -> R) -> R {
+    let task = me();
+    let p = simctx::mix(&[parent, call, i as u64, 0x17E4]);
+    simctx::with(|c| c.paths.entry(task).or_default().push(p));
+    let r = f();
+    simctx::with(|c| {
+        if let Some(v) = c.paths.get_mut(&task) {
+            v.pop();
+        }
+    });
+    r
+}
+
 struct Queue {
     /// per-worker [lo, hi) ranges (Chunks) or a single shared range in slot 0 (other policies)
     ranges: Vec<(usize, usize)>,
@@ -811,6 +833,16 @@ pub(crate) fn drive<P: ParallelIterator>(p: &P, short: Short) -> Vec<(usize, Vec
             c.n_nested += 1;
         }
     });
+    // stable identity of this call in the tree of parallel items
+    let (parent, call) = {
+        let task = me();
+        simctx::with(|c| {
+            let parent = c.current_path(task);
+            let e = c.path_calls.entry(parent).or_insert(0);
+            *e += 1;
+            (parent, *e - 1)
+        })
+    };
     let mut workers = if !active || (depth > 0 && nested_inline) { 1 } else { pool.min(n) };
     if workers > 1 {
         let ok = simctx::with(|c| {
@@ -837,7 +869,7 @@ pub(crate) fn drive<P: ParallelIterator>(p: &P, short: Short) -> Vec<(usize, Vec
                 shuttle::thread::yield_now();
             }
             let mut o = Vec::new();
-            p.produce(i, &mut |t| o.push(t));
+            under_item(parent, call, i, || p.produce(i, &mut |t| o.push(t)));
             let hit = !o.is_empty();
             out.push((i, o));
             if hit && short != Short::No {
@@ -885,7 +917,7 @@ pub(crate) fn drive<P: ParallelIterator>(p: &P, short: Short) -> Vec<(usize, Vec
                 }
                 simctx::log(simctx::EV_TAKE, w as u64, i as u64);
                 let mut o = Vec::new();
-                p.produce(i, &mut |t| o.push(t));
+                under_item(parent, call, i, || p.produce(i, &mut |t| o.push(t)));
                 if !o.is_empty() {
                     match short {
                         Short::Any => found.store(true, SeqCst),
